@@ -129,6 +129,23 @@ Theorem C12_post_html5_items :
                   other_tags l2 = other_tags l /\ adds_nbsp (vis l) (vis l2).
 Proof. exact post_html5_items. Qed.
 
+(* XHTML: r0 rewrites each tag on its own (a tag named hr, br, img, link, meta or col gets its end replaced by " />", every other
+   item is returned as it is), the result is again a structured file; then as for HTML5 *)
+Theorem C12_r0_items :
+  forall l : list item, structured l -> r0 (flat l) = flat (map r0_item l) /\ structured (map r0_item l).
+Proof. exact r0_items. Qed.
+
+Theorem C12_post_xhtml_items :
+  forall l : list item, structured l ->
+    exists l1 l2, r1_rel (map r0_item l) l1 /\ r2_rel l1 l2 /\ post_xhtml (flat l) = flat l2 /\ adds_nbsp (vis l) (vis l2).
+Proof. exact post_xhtml_items. Qed.
+
+Example C12_xhtml_clean_up_nonvacuous :
+  structured [G [60; 98; 114; 62]; T 97; G [60; 105; 109; 103; 32; 97; 61; 98; 32; 62]; G [60; 98; 62]] /\
+  post_xhtml (flat [G [60; 98; 114; 62]; T 97; G [60; 105; 109; 103; 32; 97; 61; 98; 32; 62]; G [60; 98; 62]]) =
+  flat [G [60; 98; 114; 32; 47; 62]; T 97; G [60; 105; 109; 103; 32; 97; 61; 98; 32; 47; 62]; G [60; 98; 62]].
+Proof. exact ex_r0. Qed.
+
 (* non-vacuity: <p> blanks </p> <td x> blank </td> <p> a U+00A0 </p>  is structured; the empty paragraph goes, the cell is filled,
    the paragraph holding a no-break space stays *)
 Example C12_clean_up_nonvacuous :
